@@ -231,6 +231,10 @@ var _ = rand.Int
 
 func runC11(tier string) *vf.Run {
 	run := vf.NewRun("C11", tier, "fault_enumeration")
+	if os.Getenv("C11_ONLY") == "mq" { // debug: the reader-failure scenario alone
+		runC11MQ(run)
+		return run
+	}
 	run.Rule = "case = one API sequence run by a single sequential client against a fresh CDC child process (embedded etcd, file message queue, 2 fake downstream servers, 2-3 source collections with 1-2 shards kept ticking, one row written per collection after every call): 9-12 calls (+ preparatory ones) over 2-3 tasks (distinct (target, collection) pairs, explicit task ids, disable_auto_start on a third of them) drawn from create/pause/resume/delete/get/list with ~1/3 illegal ones (wrong state, deleted id, never created id, create with an existing id); a calibration sequence counts the store calls of each operation, then every (operation, k-th store call) is enumerated cyclically, two per sequence: that call of that operation fails; a SIGKILL+restart in the middle of half of the sequences and at the end of each; finally everything is paused and deleted. After EVERY call: API get == API list == etcd record == in-memory table == gauge set, for all ids, == sequential reference (mismatch must persist over two samplings); per target refCnt / quit-function keys == running tasks; no checkpoint key of an absent task; consumer census rules; rows written while no running task covers (target, collection) are never acked there; after pause/delete with ticks stopped: /verif/busy. Non-trivial = the sequence ran to its end (or to a recorded divergence) without watchdog; distinct by the sequence text."
 	run.Assumptions = []string{
 		"single sequential client: a sequential reference model suffices; the service may pause a task on its own after an internal failure (reason 'fail…'): accepted as a legal Running->Paused when all five views agree",
@@ -337,6 +341,10 @@ func runC11(tier string) *vf.Run {
 	run.Extra("notes_first", allNotes)
 	// floors: about a third of what an unloaded run observes (quick: 31 sequences, thorough: 301)
 	q := run.Pick(1, 10)
+	if *fCase < 0 && os.Getenv("C11_ONLY") == "" && run.Thorough() {
+		// thorough tier only: Milvus' msgstream retries the refused subscription for about 80 s before it gives up
+		runC11MQ(run)
+	}
 	run.Floor("sequences_decided", run.Pick(10, 100))
 	run.Floor("calls_legal", 95*q)
 	run.Floor("calls_illegal", 24*q)
